@@ -9,7 +9,7 @@ from . import inst_common as ic
 
 GEN_SECTIONS = ["Tables", "Regexes", "Unicode"]
 # arithmetic leaf functions whose ASTs are dumped from /repo and proved equal to the hand model (lean/Chartparse/Tie/<X>.lean)
-LEAVES = {'NoteDur': 'notedur', 'Hopo': 'hopo'}
+LEAVES = {'NoteDur': 'notedur', 'Hopo': 'hopo', 'ComposeInst': []}
 TRUSTED = [
     "leaf ties: Py.evalBody (embedded Python subset, validated against CPython on random expressions and against the real leaf functions every run) + the AST dump",
     "Lean 4 kernel; axioms ⊆ {propext, Classical.choice, Quot.sound}",
